@@ -29,9 +29,9 @@ theorem whole_fixpoint (useHex : Int → Bool) (m : Module)
     function `@f`, calls it and calls the declared function `@ext`, the declaration `declare void @ext(i32 %0)`, and the metadata section `metaSample` — form a module that meets every hypothesis -/
 def hSample : Core3.Func :=
   ⟨.int 32, [104], [],
-   [⟨.id 0, [⟨some (.id 1), 23, [.flags [0], .ty (.int 32), .tyval (.ptr (.int 32) 0) (.glob [99]), .align (some 4)], .none⟩,
+   [⟨.id 0, [⟨some (.id 1), 23, [.flags [1], .ty (.int 32), .tyval (.ptr (.int 32) 0) (.glob [99]), .okw none, .align (some 4)], .none⟩,
             ⟨some (.id 2), 39, [.tyval (.ptr (.func (.int 32) (.cons (.int 32) (.cons (.int 32) .nil)) false) 0) (.glob [102]), .ty (.int 64)], .none⟩,
-            ⟨none, 24, [.flags [0], .tyval (.int 32) (.loc (.id 1)), .tyval (.ptr (.int 32) 0) (.glob [99]), .align none], .none⟩,
+            ⟨none, 24, [.flags [1], .tyval (.int 32) (.loc (.id 1)), .tyval (.ptr (.int 32) 0) (.glob [99]), .okw none, .align none], .none⟩,
             ⟨some (.id 3), 75, [.ty (.int 32), .val (.glob [102]), .tyvals [(.int 32, .loc (.id 1)), (.int 32, .const (.int 7))]], .none⟩,
             ⟨none, 74, [.val (.glob [101, 120, 116]), .tyvals [(.int 32, .loc (.id 3))]], .none⟩],
       ⟨none, 26, [.retv (some (.int 32, .loc (.id 1)))], .none⟩⟩]⟩
